@@ -50,6 +50,10 @@ if missed:
     WHY = json.load(open(os.path.join(ROOT, 'seeded', 'missed-why.json'))) if os.path.exists(os.path.join(ROOT, 'seeded', 'missed-why.json')) else {}
     for r in missed:
         out.append('* **%s** -- %s' % (r[0], WHY.get(r[0], 'not analysed')))
+ret = sorted(d for d in os.listdir(os.path.join(ROOT, 'seeded', 'retired')) if d.startswith('C')) if os.path.isdir(os.path.join(ROOT, 'seeded', 'retired')) else []
+if ret:
+    out.append('')
+    out.append('Retired seeds (not counted above; kept under seeded/retired/ with the reason in its README.md): %s -- their demonstrations stopped failing when a genuine defect they relied on was repaired in /repo, so they no longer meet "breaks the property, confirmed by a failing demonstration".' % ', '.join(ret))
 text = '\n'.join(out) + '\n'
 p = os.path.join(ROOT, 'DESIGN.md')
 s = open(p).read()
